@@ -263,29 +263,56 @@ fn check_no_false_hit_shapes(lo: usize, hi: usize) -> usize {
     hits
 }
 
-// vp: props=C11; tag=C11.static.nofalsehit; kind=bounded; bound=length shapes of RFC entries 0..33; tier=thorough
+// vp: props=C11; tag=C11.static.nofalsehit; kind=bounded; bound=length shapes of RFC entries 0..16; tier=thorough
 #[kani::proof]
 #[kani::unwind(100)]
-fn c11_static_no_false_hit_shapes_00_32() {
-    let hits = check_no_false_hit_shapes(0, 33);
+fn c11_static_no_false_hit_shapes_00_16() {
+    let hits = check_no_false_hit_shapes(0, 17);
     kani::cover!(hits >= 1);
     kani::cover!(hits == 0);
 }
 
-// vp: props=C11; tag=C11.static.nofalsehit; kind=bounded; bound=length shapes of RFC entries 33..66; tier=thorough
+// vp: props=C11; tag=C11.static.nofalsehit; kind=bounded; bound=length shapes of RFC entries 17..33; tier=thorough
 #[kani::proof]
 #[kani::unwind(100)]
-fn c11_static_no_false_hit_shapes_33_65() {
-    let hits = check_no_false_hit_shapes(33, 66);
+fn c11_static_no_false_hit_shapes_17_33() {
+    let hits = check_no_false_hit_shapes(17, 34);
     kani::cover!(hits >= 1);
     kani::cover!(hits == 0);
 }
 
-// vp: props=C11; tag=C11.static.nofalsehit; kind=bounded; bound=length shapes of RFC entries 66..99; tier=thorough
+// vp: props=C11; tag=C11.static.nofalsehit; kind=bounded; bound=length shapes of RFC entries 34..50; tier=thorough
 #[kani::proof]
 #[kani::unwind(100)]
-fn c11_static_no_false_hit_shapes_66_98() {
-    let hits = check_no_false_hit_shapes(66, 99);
+fn c11_static_no_false_hit_shapes_34_50() {
+    let hits = check_no_false_hit_shapes(34, 51);
+    kani::cover!(hits >= 1);
+    kani::cover!(hits == 0);
+}
+
+// vp: props=C11; tag=C11.static.nofalsehit; kind=bounded; bound=length shapes of RFC entries 51..67; tier=thorough
+#[kani::proof]
+#[kani::unwind(100)]
+fn c11_static_no_false_hit_shapes_51_67() {
+    let hits = check_no_false_hit_shapes(51, 68);
+    kani::cover!(hits >= 1);
+    kani::cover!(hits == 0);
+}
+
+// vp: props=C11; tag=C11.static.nofalsehit; kind=bounded; bound=length shapes of RFC entries 68..84; tier=thorough
+#[kani::proof]
+#[kani::unwind(100)]
+fn c11_static_no_false_hit_shapes_68_84() {
+    let hits = check_no_false_hit_shapes(68, 85);
+    kani::cover!(hits >= 1);
+    kani::cover!(hits == 0);
+}
+
+// vp: props=C11; tag=C11.static.nofalsehit; kind=bounded; bound=length shapes of RFC entries 85..98; tier=thorough
+#[kani::proof]
+#[kani::unwind(100)]
+fn c11_static_no_false_hit_shapes_85_98() {
+    let hits = check_no_false_hit_shapes(85, 99);
     kani::cover!(hits >= 1);
     kani::cover!(hits == 0);
 }
